@@ -175,8 +175,14 @@ static void gen(const char *mode, int bound, uint64_t idx, char *out, size_t cap
   }
 }
 
-static void run_one(const char *text) {
-  static char copy[1024];
+static void run_one(const char *gen_text) {
+  /* the input lives in a heap block of exactly strlen+1 bytes (and so does the writable copy the counting entry point gets):
+   * a scan that runs past the terminating NUL lands in the ASan red zone / in MSan-poisoned allocator padding instead of in
+   * the zero tail of a static buffer (seeded/C09_6: a two-byte skip over "\\\r" at the very end of the text) */
+  size_t tlen = strlen(gen_text);
+  char *text = malloc(tlen + 1), *copy = malloc(tlen + 1);
+  if (!text || !copy) _exit(7);
+  memcpy(text, gen_text, tlen + 1);
   for (int s = 0; s < 6; s++) {
     sh->setting = s;
     assemblyline_t al = asm_create_instance(codebuf, sizeof codebuf);
@@ -185,7 +191,7 @@ static void run_one(const char *text) {
     int m = s % 3, r, dest = 0;
     if (m == 1) asm_set_chunk_size(al, 4);
     if (m == 2) {
-      strncpy(copy, text, sizeof copy - 1);
+      memcpy(copy, gen_text, tlen + 1);
       r = asm_assemble_string_counting_chunks(al, copy, 4, &dest);
     } else
       r = asm_assemble_str(al, text);
@@ -209,6 +215,8 @@ static void run_one(const char *text) {
     free(small);
     sh->execs++;
   }
+  free(text);
+  free(copy);
 }
 
 static void put_escaped(const char *s) {
